@@ -895,8 +895,6 @@ func c06GoStream(b []byte, keep bool) ([]string, error) {
 
 // signature (failing clauses) recorded for each trigger
 var c06TrigClauses = map[string][]string{
-	"attrRefMarkup": {"wf", "attr"},
-	"attrRefWs":     {"attr"},
 	"cdEnd":         {"wf"},
 	"cdataJoin":     {"chars", "wf"}, // joining `]]` and `>` also yields `]]>`
 	"piData":        {"pi", "attr"}, // token level: the re-lexed PI has different pseudo-attributes
@@ -1132,7 +1130,7 @@ func init() {
 			"<a b='x&#60;y \"'/>", "<a b=\"a &#38;#38; &#38;amp; b\"/>", "<a b=\"&quot;&apos;&apos;\"/>", "<a>&#xE9;&#233;&#x2028;&#x10000;</a>",
 			"<!DOCTYPE a [ <!ENTITY e1 \"v\"> ]>\n<a>&e1;</a>", "<a>\n  <b>  x  y  </b>\n  <c/>\n</a>\n", "<a>x<![CDATA[ <&<&<& ]]>y</a>", "<a>x<![CDATA[<&<]]>y</a>",
 			"<a>&lt;&amp;&gt;&quot;&apos;</a>", "<a>x &#10; y</a>", "<a><![CDATA[]]></a>", "<a>x <![CDATA[]]> z</a>", "<a>a]]<!--c-->b</a>", "<a b=\"&#x26;#60;\"/>",
-			"<a>x <?pi a=\"1\"?> y</a>", "<a>x <?pi a=\"1\"?>y</a>", "<a><b/> <c/></a>", "<a>&amp;&#35;60;</a>", "<a>&#38;lt;</a>",
+			"<a b=\"x&#60;y &#38; z&#10;\"/>", "<a b=\"&#x9;&#xA;&#xD;&#9;&#38;#38;&#x26;&#x3c;q\" c='&#60;&#38;'/>", "<a>x <?pi a=\"1\"?> y</a>", "<a>x <?pi a=\"1\"?>y</a>", "<a><b/> <c/></a>", "<a>&amp;&#35;60;</a>", "<a>&#38;lt;</a>",
 		}
 		var cases []*c06Case
 		for _, f := range fixed {
